@@ -26,9 +26,9 @@ TStats == /\ Step("stats") /\ UNCHANGED bvars
           /\ (numDocs = 0 => Ev.avg6 = 0)
 TSearch == /\ Step("search") /\ Ev.ok /\ UNCHANGED bvars
            /\ LET filt == AsSet(Ev.filt)  qs == Ev.qs IN
-              IF numDocs = 0 THEN Ev.res = <<>>
-              ELSE IF Len(qs) = 1 THEN ValidResult(Ev.res, qs[1], Ev.k, filt)
-              ELSE MultiValid(Ev.res, qs, Ev.k, filt, Ev.agg)
+              Holds(IF numDocs = 0 THEN Ev.res = <<>>
+                    ELSE IF Len(qs) = 1 THEN ValidResult(Ev.res, qs[1], Ev.k, filt)
+                    ELSE MultiValid(Ev.res, qs, Ev.k, filt, Ev.agg))
 TNext == TReset \/ TAdd \/ TRemove \/ TFlush \/ TSave \/ TReload \/ TStats \/ TSearch
 TSpec == TInit /\ [][TNext]_tvars
 Accepted == LET d == TLCGet("stats").diameter IN PrintT("CONSUMED " \o ToString(d - 1))
